@@ -303,6 +303,7 @@ package priority
 //@   modifies content(dsc.actual), gInfl, gInflP, gClock, gStop
 //@   ensures [*] WF(dsc)
 //@   ensures [* C16] old(gStop) ==> gStop
+//@   ensures [C16] polls: gPolls > old(gPolls)
 
 //@ func (*Discipline).waitCalcTactic
 //@   requires [*] WF(dsc)
@@ -335,6 +336,7 @@ package priority
 //@   ensures [* C01] dsc.tactic[priority] == old(dsc.tactic[priority]) - result && (forall k :: k != priority ==> dsc.tactic[k] == old(dsc.tactic[k]))
 //@   ensures [* C16] old(gStop) ==> gStop
 //@   ensures [* C16] result == 0 ==> gStop
+//@   ensures [C16] polls: gPolls > old(gPolls)
 
 //@ func (*Discipline).io
 //@   requires [C02] SEQ2(dsc)
